@@ -57,6 +57,8 @@ def gen(r, tier, i):
             p['amount2'] = 10 * r.choice([1, 2, 5])      # a second port on the accumulator's node
         if r.random() < 0.2:
             p['pair'] = True       # two dictionary ports on one store, update dictionaries built once and reused
+        if r.random() < 0.25:
+            p['vec'] = True        # an array-valued accumulator of its own (all share one default object)
         if cls == 'weak':
             c = r.random()
             if c < 0.25:
@@ -249,6 +251,15 @@ def check_acc(V, spec, row, present, amounts, T):
         V.check('accumulator', row.get('shared_acc') == shared,
                 lambda: ('shared accumulator at t=%r is %r, sum of applied updates %r' % (T, row.get('shared_acc'), shared)))
     for p in spec['procs']:
+        if p.get('vec'):
+            cnt = sum(1 for pid, k in present if pid == p['pid'])
+            a = p.get('amount', 1)
+            got = row.get('vec', {}).get('p%d' % p['pid'])
+            got2 = row.get('vec2', {}).get('p%d' % p['pid'])
+            V.check('accumulator', got is not None and got2 is not None and list(got) == [a * cnt, 2 * a * cnt] and
+                    list(got2) == [3 * a * cnt, 3 * a * cnt],
+                    lambda: ('array accumulators of process %d at t=%r are %r and %r, %d updates of [%r, %r] and [%r, %r] applied' % (
+                        p['pid'], T, got, got2, cnt, a, 2 * a, 3 * a, 3 * a)))
         if p.get('pair'):
             cnt = sum(1 for pid, k in present if pid == p['pid'])
             a = p.get('amount', 1)
